@@ -141,6 +141,8 @@ class World:
         self.forks = []           # (pid, master?, mono)
         self.reaps = []           # (pid, status) in waitpid order
         self.reaps_ctx = []       # reexec_pid of the master at each of them
+        self.fork_at = {}         # pid -> number of labels executed when it was forked
+        self.reap_at = {}         # pid -> number of labels executed when it was reaped
         self.fs_unlinked = []     # paths unlinked through sock.close_sockets
         self.closed_listeners = []
         self.created_sockets = [] # (fds argument) per create_sockets call
@@ -163,6 +165,7 @@ class World:
         self.events = []          # oracle-side log: (kind, ...)
         self.nlabels = 0
         self.in_script = True
+        self.probe = None         # optional callback(world, yield_code) for property oracles
         self.script_labels = None  # number of executed labels that came from the script (the rest is the tail)
         self.stopping_at = None   # number of labels executed when stop() was first entered
 
@@ -181,6 +184,7 @@ class World:
         self.next_pid += 1
         self.kids.append({"pid": pid, "st": "R", "status": 0, "sigs": [], "master": master})
         self.forks.append((pid, master, self.mono))
+        self.fork_at[pid] = self.nlabels
         return pid
 
     def k_kill(self, pid, sig):
@@ -206,6 +210,7 @@ class World:
                 self.kids.remove(k)
                 self.reaps.append((k["pid"], k["status"]))
                 self.reaps_ctx.append(int(self.arbiter.reexec_pid))
+                self.reap_at[k["pid"]] = self.nlabels
                 return k["pid"], k["status"]
         return 0, 0
 
@@ -216,6 +221,8 @@ class World:
         self.cur = (code, int(a), int(b))
         if self.pending_obs:
             self.snap()
+        if self.probe is not None:
+            self.probe(self, code)
         while True:
             if self.script:
                 lab = self.script.pop(0)
@@ -643,3 +650,11 @@ def tail_expr(cfg, w):
     if rest:
         e = "(%s ++ %s)" % (e, labels_expr(rest))
     return e
+
+
+def reaped_before_registration(w, pid):
+    """D17 signature: the SIGCHLD handler reaped `pid` before the master step that registers it ran, i.e. no
+    master label was executed between the fork and the reap."""
+    if pid not in w.fork_at or pid not in w.reap_at:
+        return False
+    return not any(l[0] == "M" for l in w.resolved[w.fork_at[pid]:w.reap_at[pid]])
